@@ -27,11 +27,11 @@ def _traj(has1, has3, pro, brk):
     """4 residues; residues 0 and 2 complete, residues 1 and 3 have the backbone atoms selected by has1 / has3 (plus a CB and, out of order,
     an extra atom so that indices are not 4*r+k)"""
     top = Topology()
-    ch = top.add_chain()
+    ch = top.add_chain("A")          # both chains carry the SAME identifier: the routine must still be told they are different chains
     want = {}
     for r in range(4):
         if r == brk and r > 0:
-            ch = top.add_chain()
+            ch = top.add_chain("A")
         res = top.add_residue("PRO" if r == pro else ["ALA", "HOH", "GLY", "SER"][r], ch)
         have = [True] * 4 if r in (0, 2) else list(has1 if r == 1 else has3)
         order = ["CB", "O", "N", "C", "CA"] if r % 2 else ["N", "CA", "C", "O", "CB"]      # odd residues list the atoms in a different order
